@@ -75,6 +75,14 @@ def jobs(tier, seed):
                     prs.add((a, bb))
             for a, bb in sorted(prs):
                 out.append(dict(h="astar", r=r, c=c, s=list(a), e=list(bb), fix=fix, max_seconds=3000, label=f"astar:{r}x{c} base#{b} free{sorted(free)} {a}->{bb}"))
+    # mazes that carry (accurate) generation metadata: a recorded component in one part of the grid, queries in the rest
+    for r, c, V in [(3, 3, [(0, 0), (1, 0), (2, 0)]), (2, 3, [(0, 0), (1, 0)]), (3, 3, [(1, 1)])] + ([(3, 4, [(0, 0), (0, 1)]), (3, 3, [(0, 2), (0, 1), (0, 0)])] if tier != "quick" else []):
+        rest = [(i, j) for i in range(r) for j in range(c) if (i, j) not in V]
+        prs = [(a, b) for a in rest for b in rest if a != b]
+        if tier == "quick":
+            prs = prs[::3]
+        for a, b in prs + [(V[0], rest[0]), (rest[-1], V[-1]), (V[0], V[-1])]:
+            out.append(dict(h="astar", r=r, c=c, s=list(a), e=list(b), meta_component=[list(v) for v in V], max_seconds=3000))
     # query histories on one maze object (same start twice, then a repeat of the first query)
     def seqs(r, c, starts, k):
         cells = [(i, j) for i in range(r) for j in range(c)]
@@ -118,6 +126,35 @@ def _post(lat, s, e, outcome, path):
     return obs
 
 
+def _meta_cells(job):
+    return [tuple(x) for x in job["meta_component"]]
+
+
+def _meta_for(job, lat, ctx):
+    """accurate generation metadata as the percolation generators attach it: `visited_cells` = the connected component of `start_coord`.
+    The instance assumes that this component is exactly the given cell set (its listed spanning connections set, every connection
+    leaving it clear); all other connection bits stay symbolic.  The solver's answers must depend on the connection structure only."""
+    if not job.get("meta_component"):
+        return None
+    V = _meta_cells(job)
+    for k in lat.edge_idx:
+        a, b = lat.ends(k)
+        if (a in V) != (b in V):
+            ctx.solver.add(z3.Not(lat.bit[k]))
+    for a, b in zip(V, V[1:]):  # V is listed as a chain of adjacent cells
+        ctx.solver.add(lat.bit[lat.edge_between(a, b)])
+    return dict(func_name="gen_percolation", grid_shape=np.array([lat.r, lat.c]), start_coord=np.array(V[0]), fully_connected=False,
+                visited_cells={tuple(v) for v in V}, n_accessible_cells=lat.r * lat.c, max_tree_depth=2 * lat.r * lat.c, p=0.5)
+
+
+def _real_meta(job, cl):
+    if not job.get("meta_component"):
+        return None
+    V = _meta_cells(job)
+    return dict(func_name="gen_percolation", grid_shape=np.array(cl.shape[1:]), start_coord=np.array(V[0]), fully_connected=False,
+                visited_cells={tuple(v) for v in V}, n_accessible_cells=int(cl.shape[1] * cl.shape[2]), max_tree_depth=2 * int(cl.shape[1] * cl.shape[2]), p=0.5)
+
+
 def _run_astar(job):
     from maze_dataset.maze.lattice_maze import LatticeMaze
 
@@ -129,7 +166,7 @@ def _run_astar(job):
             pin(pinned)
         if job.get("fix"):
             pin(job["fix"])  # this instance covers the mazes with these bits; sibling instances cover the other values
-        m = LatticeMaze(connection_list=cl)
+        m = LatticeMaze(connection_list=cl, generation_meta=_meta_for(job, lat, ctx))
         try:
             p = m.find_shortest_path(s, e)
         except ValueError:
@@ -238,7 +275,7 @@ def _real_outcome(job, inputs):
     cl = conn_from_cex(inputs, r, c)
     try:
         if job["h"] == "astar":
-            p = LatticeMaze(connection_list=cl).find_shortest_path(s, e)
+            p = LatticeMaze(connection_list=cl, generation_meta=_real_meta(job, cl)).find_shortest_path(s, e)
         else:
             p = SolvedMaze.from_targeted_lattice_maze(
                 TargetedLatticeMaze(connection_list=cl, start_pos=np.array(s), end_pos=np.array(e))).solution
@@ -340,7 +377,7 @@ META = dict(
                "SolvedMaze.__init__"],
     bounds=dict(
         quick="all connection structures (every bit symbolic) on all grids r x c with r*c <= 6 and all ordered (start,end) pairs; 3x3 with 12 pairs; larger grids around seeded dense base mazes with 4 symbolic bits and 6 endpoint pairs each (4x3: 3 bases, 4x4: 5, 5x5: 8, 3x5: 2, 6x6: 4); "
-              "histories of queries on one maze object (two from the same start; on 2x3 also the reverse and a repeat) on 2x3, 2x4 and 3x3 (18 seeded histories)",
+              "mazes carrying accurate generation metadata (a recorded component of 1-3 cells, queries among the other cells; all other bits symbolic); histories of queries on one maze object (two from the same start; on 2x3 also the reverse and a repeat) on 2x3, 2x4 and 3x3 (18 seeded histories)",
         thorough="as quick (query histories: 40 on 3x3, 28 on 2x3 / 2x4), plus 3x3 all 81 pairs, 3x4 and 4x3 with 6 pairs each, 2x8 (all 2^22 mazes) for the pair (0,7)->(1,0), solve_targeted on 3x3 all pairs",
     ),
     degenerate={},
